@@ -96,6 +96,14 @@ def cond_truth(ev):
     return None
 
 
+def _stateful(e):
+    if not isinstance(e, tuple):
+        return False
+    if e and e[0] == "call" and len(e) == 4:
+        return True
+    return any(_stateful(x) for x in e if isinstance(x, tuple))
+
+
 def feasible(evs, barrier_kinds=("wait",), invalidators=None):
     """prune paths that take contradictory branches on the same expression with no
     intervening event that could change it.  `invalidators`: dict event kind -> predicate(expr)
@@ -109,6 +117,8 @@ def feasible(evs, barrier_kinds=("wait",), invalidators=None):
             t = cond_truth(e)
             if t is None:
                 continue
+            if _stateful(e.data[0]):
+                continue      # the value of a call on `&mut` state (iterator.next(), a reader) is new each time it is evaluated
             k = repr(e.data[0])
             if k in known and known[k][0] != t:
                 return False
